@@ -167,13 +167,74 @@ func c15EmptyFields() c15Obj {
 // ---------- scripted verifier: real signature check against the scripted key set ----------
 
 type c15Verifier struct {
-	log     *c15Log
-	keys    map[string]ed25519.PublicKey
-	fail    bool
-	wantMsg []byte // the redacted event the handler is expected to submit
-	wantTS  spec.Timestamp
+	log      *c15Log
+	keys     map[string]ed25519.PublicKey
+	fail     bool
+	validity string // validity period of every key relative to the event's origin_server_ts (see c15Validity)
+	wantMsg  []byte // the redacted event the handler is expected to submit
+	wantTS   spec.Timestamp
 }
 
+// valid_until_ts / expired_ts of the signing keys for a validity scenario; every event of the
+// C15 scenarios has origin_server_ts = c15Time
+func c15Validity(mode string) (validUntil, expired spec.Timestamp) {
+	ots := spec.AsTimestamp(c15Time)
+	validUntil, expired = spec.AsTimestamp(c15Time.AddDate(10, 0, 0)), gmsl.PublicKeyNotExpired
+	switch mode {
+	case "until_before":
+		validUntil = ots - 1
+	case "until_equal":
+		validUntil = ots
+	case "until_after":
+		validUntil = ots + 1
+	case "not_valid":
+		validUntil = gmsl.PublicKeyNotValid
+	case "expired_before":
+		expired = ots - 1
+	case "expired_equal":
+		expired = ots
+	case "expired_after":
+		expired = ots + 1
+	}
+	return
+}
+
+// The rule these handlers document: the signing key must have been valid at the event's
+// origin_server_ts under the STRICT reading, whatever the room version (stated here without the
+// library's StrictValiditySignatureCheck / WasValidAt).
+func c15StrictlyValidAt(mode string, ots spec.Timestamp) bool {
+	validUntil, expired := c15Validity(mode)
+	if expired != 0 {
+		return ots < expired
+	}
+	return validUntil != 0 && ots <= validUntil
+}
+
+// in-memory key database: the key of each scripted server under c15KeyID, with the scripted validity
+type c15ValidityDB struct {
+	keys     map[string]ed25519.PublicKey
+	validity string
+}
+
+func (d *c15ValidityDB) FetcherName() string { return "c15ValidityDB" }
+func (d *c15ValidityDB) FetchKeys(ctx context.Context, reqs map[gmsl.PublicKeyLookupRequest]spec.Timestamp) (map[gmsl.PublicKeyLookupRequest]gmsl.PublicKeyLookupResult, error) {
+	res := map[gmsl.PublicKeyLookupRequest]gmsl.PublicKeyLookupResult{}
+	vu, ex := c15Validity(d.validity)
+	for r := range reqs {
+		if r.KeyID != c15KeyID {
+			continue
+		}
+		if pk, ok := d.keys[string(r.ServerName)]; ok {
+			res[r] = gmsl.PublicKeyLookupResult{VerifyKey: gmsl.VerifyKey{Key: spec.Base64Bytes(pk)}, ValidUntilTS: vu, ExpiredTS: ex}
+		}
+	}
+	return res, nil
+}
+func (d *c15ValidityDB) StoreKeys(ctx context.Context, results map[gmsl.PublicKeyLookupRequest]gmsl.PublicKeyLookupResult) error {
+	return nil
+}
+
+// signature check alone (no validity period)
 func (v *c15Verifier) verdict(server string, msg []byte) error {
 	pub, ok := v.keys[server]
 	if !ok {
@@ -182,8 +243,11 @@ func (v *c15Verifier) verdict(server string, msg []byte) error {
 	return gmsl.VerifyJSON(server, c15KeyID, pub, msg)
 }
 
+// The verifier handed to the handlers: logs the request, then lets a real KeyRing over the
+// in-memory database decide, so that the request's ValidityCheckingFunc is honoured.
 func (v *c15Verifier) VerifyJSONs(ctx context.Context, reqs []gmsl.VerifyJSONRequest) ([]gmsl.VerifyJSONResult, error) {
 	res := make([]gmsl.VerifyJSONResult, len(reqs))
+	ring := &gmsl.KeyRing{KeyFetchers: []gmsl.KeyFetcher{}, KeyDatabase: &c15ValidityDB{keys: v.keys, validity: v.validity}}
 	for i, r := range reqs {
 		isMapping := bytes.Contains(r.Message, []byte(`"user_room_key"`)) && !bytes.Contains(r.Message, []byte(`"room_id"`))
 		if !isMapping && v.log != nil {
@@ -199,7 +263,11 @@ func (v *c15Verifier) VerifyJSONs(ctx context.Context, reqs []gmsl.VerifyJSONReq
 		if v.fail && !isMapping {
 			return nil, errC15Querier
 		}
-		res[i].Error = v.verdict(string(r.ServerName), r.Message)
+		rr, err := ring.VerifyJSONs(ctx, []gmsl.VerifyJSONRequest{r})
+		if err != nil {
+			return nil, err
+		}
+		res[i] = rr[0]
 	}
 	return res, nil
 }
@@ -290,6 +358,9 @@ type c15EvScen struct {
 	LocalSig     bool   `json:"local_sig"`     // already carries a signature of the local server
 	Unsigned     string `json:"unsigned"`      // unsigned object text ("" = none)
 	Mapping      string `json:"mapping"`       // pseudo-ID rooms: good | missing | badsig | nosigs | othersigner
+	MappingKey   string `json:"mapping_key"`   // pseudo-ID rooms: "" = the mapping names the sender's key | other = another key
+	Signers      string `json:"signers"`       // pseudo-ID rooms: "" = signed by the sender key | mapping | both | neither
+	KeyValidity  string `json:"key_validity"`  // validity period of the signing keys around origin_server_ts (c15Validity)
 }
 
 const (
@@ -340,6 +411,10 @@ func c15MakeEvent(ver gmsl.RoomVersion, s c15EvScen) []byte {
 	}
 	if pseudo && s.Mapping != "missing" {
 		mapping := gmsl.MXIDMapping{UserRoomKey: spec.SenderID(sender), UserID: "@user:" + s.SenderDomain}
+		if s.MappingKey == "other" {
+			_, k2 := c15Key("pseudo-other-" + s.SenderDomain)
+			mapping.UserRoomKey, mapping.UserID = spec.SenderIDFromPseudoIDKey(k2), "@mallory:"+s.SenderDomain
+		}
 		_, msk := c15Key(s.SenderDomain)
 		switch s.Mapping {
 		case "nosigs":
@@ -382,11 +457,25 @@ func c15MakeEvent(ver gmsl.RoomVersion, s c15EvScen) []byte {
 		case "wrongkey", "othersigner":
 			_, key = c15Key("elsewhere")
 		}
+		// who signs the event: the sender's key K1, the key K2 the mapping may name, both, or neither
+		_, k2 := c15Key("pseudo-other-" + s.SenderDomain)
+		k2ID := string(spec.SenderIDFromPseudoIDKey(k2))
+		signName := sender
+		switch s.Signers {
+		case "mapping":
+			signName, key = k2ID, k2
+		case "neither":
+			_, key = c15Key("pseudo-unrelated")
+			signName = string(spec.SenderIDFromPseudoIDKey(key))
+		}
 		proto.PrevEvents, proto.AuthEvents = []interface{}{}, []interface{}{}
 		var berr error
-		ev, berr = gmsl.MustGetRoomVersion(ver).NewEventBuilderFromProtoEvent(&proto).Build(c15Time, spec.ServerName(sender), "ed25519:1", key)
+		ev, berr = gmsl.MustGetRoomVersion(ver).NewEventBuilderFromProtoEvent(&proto).Build(c15Time, spec.ServerName(signName), "ed25519:1", key)
 		if berr != nil {
 			panic(fmt.Sprintf("c15MakeEvent: %v", berr))
+		}
+		if s.Signers == "both" {
+			ev = ev.Sign(k2ID, "ed25519:1", k2)
 		}
 	} else {
 		ev = c15Build(ver, proto, signer, keyName)
@@ -429,13 +518,17 @@ func c15VerifyCfg(sig string, v *c15Verifier, server string, ver gmsl.RoomVersio
 	if v.verdict(server, red) != nil {
 		return "bad"
 	}
+	if !c15StrictlyValidAt(v.validity, ev.OriginServerTS()) {
+		return "bad" // validly signed means: with a key valid at origin_server_ts under the strict rule
+	}
 	return "ok"
 }
 
 type c15SenderQ struct {
-	log  *c15Log
-	mode string // ok | err | nil
-	user string // pseudo IDs: the mapped user; else parse the sender ID
+	log   *c15Log
+	mode  string            // ok | err | nil
+	user  string            // pseudo IDs: the mapped user (for the record); else parse the sender ID
+	store map[string]string // pseudo IDs: sender ID -> user ID as stored by earlier send_joins (nil = not used)
 }
 
 func (q *c15SenderQ) fn(roomID spec.RoomID, senderID spec.SenderID) (*spec.UserID, error) {
@@ -447,6 +540,14 @@ func (q *c15SenderQ) fn(roomID spec.RoomID, senderID spec.SenderID) (*spec.UserI
 		return nil, errC15Querier
 	case "nil":
 		return nil, nil
+	}
+	if q.store != nil {
+		// what a homeserver does: answer from the mappings stored by earlier joins
+		u, ok := q.store[string(senderID)]
+		if !ok {
+			return nil, errC15Querier
+		}
+		return spec.NewUserID(u, true)
 	}
 	if q.user != "" {
 		return spec.NewUserID(q.user, true)
@@ -501,6 +602,11 @@ func c15MappingCfg(ev gmsl.PDU, v *c15Verifier) (ok bool, sigOK bool) {
 		if v.verdict(string(server), msg) != nil {
 			return true, false
 		}
+		// the mapping is checked with the room version's validity rule, which is the strict one
+		// for the pseudo-ID room version
+		if !c15StrictlyValidAt(v.validity, ev.OriginServerTS()) {
+			return true, false
+		}
 	}
 	return true, true
 }
@@ -525,14 +631,32 @@ func c15SendJoin(args [][]byte) ([][]byte, []byte) {
 	rawCopy := append([]byte{}, raw...)
 
 	log := &c15Log{}
-	verifier := &c15Verifier{log: log, keys: c15Keys(), fail: s.Ev.Sig == "verr"}
+	verifier := &c15Verifier{log: log, keys: c15Keys(), fail: s.Ev.Sig == "verr", validity: s.Ev.KeyValidity}
 	sq := &c15SenderQ{log: log, mode: s.SenderQ}
-	if ver == gmsl.RoomVersionPseudoIDs {
-		sq.user = "@user:" + s.Ev.SenderDomain
-	}
 	room, _ := spec.NewRoomID(c15ReqRoom)
 	_, lsk := c15Key("local")
 	lpk, _ := c15Key("local")
+	if ver == gmsl.RoomVersionPseudoIDs {
+		sq.user = "@user:" + s.Ev.SenderDomain
+		// Step one of the sequence: a proper join of the sender key K1 from the same server has been
+		// handled before, which is how the querier comes to know K1 (real call, not logged).
+		sq.store = map[string]string{}
+		first := c15GoodEv("join", "sender")
+		first.SenderDomain = s.Ev.SenderDomain
+		firstRaw := c15MakeEvent(ver, first)
+		if fev, ferr := gmsl.MustGetRoomVersion(ver).NewEventFromUntrustedJSON(firstRaw); ferr == nil {
+			q1 := &c15SenderQ{mode: "ok", store: sq.store}
+			_, _ = gmsl.HandleSendJoin(gmsl.HandleSendJoinInput{
+				Context: context.Background(), RoomID: *room, EventID: fev.EventID(), JoinEvent: firstRaw, RoomVersion: ver,
+				RequestOrigin: spec.ServerName(s.Ev.SenderDomain), LocalServerName: "local", KeyID: c15KeyID, PrivateKey: lsk,
+				Verifier: &c15Verifier{keys: c15Keys()}, MembershipQuerier: &c15Membership{log: &c15Log{}, answer: "leave"}, UserIDQuerier: q1.fn,
+				StoreSenderIDFromPublicID: func(ctx context.Context, senderID spec.SenderID, userID string, id spec.RoomID) error {
+					sq.store[string(senderID)] = userID
+					return nil
+				},
+			})
+		}
+	}
 
 	cfg := c15Obj{"version": s.Ver, "req_room": c15ReqRoom, "origin": s.Origin, "local": "local",
 		"key_id": string(c15KeyID), "mapping_ok": true, "mapping_sig_ok": true, "store_ok": s.Store != "err",
@@ -591,6 +715,11 @@ func c15SendJoin(args [][]byte) ([][]byte, []byte) {
 			log.add("T", id.String())
 			if s.Store == "err" {
 				return errC15Passthrough
+			}
+			if sq.store != nil {
+				if _, known := sq.store[string(senderID)]; !known {
+					sq.store[string(senderID)] = userID
+				}
 			}
 			return nil
 		},
@@ -690,7 +819,7 @@ func c15Invite(args [][]byte) ([][]byte, []byte) {
 	fields := c15Fields(ev)
 
 	log := &c15Log{}
-	verifier := &c15Verifier{log: log, keys: c15Keys(), fail: s.Ev.Sig == "verr"}
+	verifier := &c15Verifier{log: log, keys: c15Keys(), fail: s.Ev.Sig == "verr", validity: s.Ev.KeyValidity}
 	if red, err := gmsl.MustGetRoomVersion(buildVer).RedactEventJSON(ev.JSON()); err == nil {
 		verifier.wantMsg, verifier.wantTS = red, ev.OriginServerTS()
 	}
@@ -838,7 +967,7 @@ func genC15SendJoin(c *Ctx) {
 	good := func() c15SJScen {
 		return c15SJScen{Ver: "10", Ev: c15GoodEv("join", "sender"), ReqEventID: "match", Origin: "remote", SenderQ: "ok", MemberQ: "leave"}
 	}
-	vers := []string{"1", "2", "5", "8", "10", "11", "12", "org.matrix.msc4014", "bogus", ""}
+	vers := []string{"1", "2", "3", "4", "5", "8", "10", "11", "12", "org.matrix.msc4014", "bogus", ""}
 	// one-guard-at-a-time deviations from the good request, for every version
 	type mut struct {
 		name string
@@ -888,6 +1017,20 @@ func genC15SendJoin(c *Ctx) {
 		{"mapping unsigned", func(s *c15SJScen) { s.Ev.Mapping = "nosigs" }},
 		{"mapping signed by another server", func(s *c15SJScen) { s.Ev.Mapping = "othersigner" }},
 		{"store fails", func(s *c15SJScen) { s.Store = "err" }},
+		{"mapping names another key", func(s *c15SJScen) { s.Ev.MappingKey = "other" }},
+		{"signed by the mapping key only", func(s *c15SJScen) { s.Ev.Signers = "mapping" }},
+		{"signed by sender and mapping key", func(s *c15SJScen) { s.Ev.Signers = "both" }},
+		{"signed by neither key", func(s *c15SJScen) { s.Ev.Signers = "neither" }},
+		{"mapping names another key which alone signs", func(s *c15SJScen) { s.Ev.MappingKey = "other"; s.Ev.Signers = "mapping" }},
+		{"mapping names another key, both sign", func(s *c15SJScen) { s.Ev.MappingKey = "other"; s.Ev.Signers = "both" }},
+		{"mapping names another key, neither signs", func(s *c15SJScen) { s.Ev.MappingKey = "other"; s.Ev.Signers = "neither" }},
+		{"key valid until just before the event", func(s *c15SJScen) { s.Ev.KeyValidity = "until_before" }},
+		{"key valid until the event's instant", func(s *c15SJScen) { s.Ev.KeyValidity = "until_equal" }},
+		{"key valid until just after the event", func(s *c15SJScen) { s.Ev.KeyValidity = "until_after" }},
+		{"key never valid", func(s *c15SJScen) { s.Ev.KeyValidity = "not_valid" }},
+		{"key expired just before the event", func(s *c15SJScen) { s.Ev.KeyValidity = "expired_before" }},
+		{"key expired at the event's instant", func(s *c15SJScen) { s.Ev.KeyValidity = "expired_equal" }},
+		{"key expired just after the event", func(s *c15SJScen) { s.Ev.KeyValidity = "expired_after" }},
 	}
 	for _, v := range vers {
 		for _, m := range muts {
@@ -950,7 +1093,7 @@ func genC15Invite(c *Ctx) {
 	good := func() c15IVScen {
 		return c15IVScen{Ver: "10", Ev: c15GoodEv("invite", "target"), SenderQ: "ok", Known: "yes", Given: 2, Generated: "some", MemberQ: "leave"}
 	}
-	vers := []string{"1", "2", "5", "8", "10", "11", "12", "bogus", ""}
+	vers := []string{"1", "2", "3", "4", "5", "8", "10", "11", "12", "bogus", ""}
 	type mut struct {
 		name string
 		f    func(*c15IVScen)
@@ -989,6 +1132,13 @@ func genC15Invite(c *Ctx) {
 		{"member_q invite", func(s *c15IVScen) { s.MemberQ = "invite" }},
 		{"already signed locally", func(s *c15IVScen) { s.Ev.LocalSig = true }},
 		{"with unsigned", func(s *c15IVScen) { s.Ev.Unsigned = `{"age":5,"invite_room_state":[1]}` }},
+		{"key valid until just before the event", func(s *c15IVScen) { s.Ev.KeyValidity = "until_before" }},
+		{"key valid until the event's instant", func(s *c15IVScen) { s.Ev.KeyValidity = "until_equal" }},
+		{"key valid until just after the event", func(s *c15IVScen) { s.Ev.KeyValidity = "until_after" }},
+		{"key never valid", func(s *c15IVScen) { s.Ev.KeyValidity = "not_valid" }},
+		{"key expired just before the event", func(s *c15IVScen) { s.Ev.KeyValidity = "expired_before" }},
+		{"key expired at the event's instant", func(s *c15IVScen) { s.Ev.KeyValidity = "expired_equal" }},
+		{"key expired just after the event", func(s *c15IVScen) { s.Ev.KeyValidity = "expired_after" }},
 	}
 	for _, v := range vers {
 		for _, m := range muts {
